@@ -21,7 +21,7 @@ def enums():
 class Wf:
     """Symbolic workflow database over K node slots and D dependency slots."""
 
-    def __init__(self, K=5, D=4, extra_caps=None, extra_pool=(), prefix="s", with_scheduler_tables=True, labels=None):
+    def __init__(self, K=5, D=4, extra_caps=None, extra_pool=(), prefix="s", with_scheduler_tables=True, labels=None, fixed=None):
         scripts = live.schema_scripts() + (live.scheduler_temp_ddl() if with_scheduler_tables else [])
         self.labels = list(labels) if labels is not None else ["a", "b", "d/", "d/x", "d0", "p", "q"]
         pool = ["", "root", "file", "step", "st", "p", "q", "d/", "d0"] + self.labels + live.hash_json_pool() + live.step_hash_json_pool() + list(extra_pool)
@@ -35,7 +35,7 @@ class Wf:
         }
         caps.update(extra_caps or {})
         self.caps = caps
-        self.cons = symbolic_tables(self.ctx, caps, prefix=prefix)
+        self.cons = symbolic_tables(self.ctx, caps, prefix=prefix, fixed=fixed)
         self.cons += self.typing()
 
     # -- accessors ---------------------------------------------------------------------------------
@@ -119,16 +119,20 @@ class Wf:
                 cons.append(z3.Implies(bz(r.present), z3.Or(*[z3.And(r.vals["node"].v == j + 1, bz(self.steps[j].present)) for j in range(self.K)])))
         if "target_path" in self.ctx.tables:
             for r in self.t("target_path").rows:
+                if isinstance(r.present, bool):
+                    continue  # pinned content
                 cons.append(z3.Or(*[r.vals["path"].v == a for a in labels]))
         if "target_dir" in self.ctx.tables:
             for r in self.t("target_dir").rows:
+                if isinstance(r.present, bool):
+                    continue
                 cons.append(z3.And(r.vals["path"].v == pool.atom("d/"), r.vals["upper"].v == pool.atom("d0")))
         # primary-key text columns of the scratch tables are never NULL (they are filled from
         # parsed command-line values); SQLite itself would allow NULL in a rowid table's TEXT key
         for name, col in (("available_resource", "name"), ("target_path", "path"), ("target_dir", "path"), ("path_list", "path")):
             if name in self.ctx.tables:
                 for r in self.t(name).rows:
-                    if r.vals[col].n is not False:
+                    if r.vals[col].n is not False and not isinstance(r.present, bool):
                         cons.append(z3.Not(r.vals[col].n))
         for name in ("check_after", "changed_after", "safe_update", "node_list", "path_list"):
             if name in self.ctx.tables:
@@ -307,11 +311,11 @@ class Wf:
         FileState, _, _ = enums()
         return z3.And(self.dep_edge(s, f), bz(self.files[f].present), self.nodes[f].vals["detached"].v == 0, self.files[f].vals["state"].v != FileState.VOLATILE.value)
 
-    def local_need(self):
+    def local_need(self, in_targets=None, under_dir=None):
         """One-hop definition of _implied_need using the *cached* values of the consuming steps."""
-        return self.def_need(cached=True)
+        return self.def_need(cached=True, in_targets=in_targets, under_dir=under_dir)
 
-    def def_need(self, cached=False):
+    def def_need(self, cached=False, in_targets=None, under_dir=None):
         """need*[j]: least fixed point (K iterations over the acyclic dependency graph).
         With cached=True: a single step of the equation, reading the consumers' cached columns."""
         _, _, Need = enums()
@@ -320,12 +324,19 @@ class Wf:
         tp = self.t("target_path").rows if "target_path" in self.ctx.tables else []
         td = self.t("target_dir").rows if "target_dir" in self.ctx.tables else []
 
+        def at(v):
+            return self.ctx.pool.atom(v) if isinstance(v, str) else v
+
         def label_in_targets(f):
-            return z3.Or(*[z3.And(bz(r.present), r.vals["path"].v == self.nodes[f].vals["label"].v) for r in tp]) if tp else z3.BoolVal(False)
+            if in_targets is not None:
+                return in_targets(self.nodes[f].vals["label"].v)
+            return z3.Or(*[z3.And(bz(r.present), at(r.vals["path"].v) == self.nodes[f].vals["label"].v) for r in tp]) if tp else z3.BoolVal(False)
 
         def label_under_dir(f):
             lab = self.nodes[f].vals["label"].v
-            return z3.Or(*[z3.And(bz(r.present), lab >= r.vals["path"].v, lab < r.vals["upper"].v) for r in td]) if td else z3.BoolVal(False)
+            if under_dir is not None:
+                return under_dir(lab)
+            return z3.Or(*[z3.And(bz(r.present), lab >= at(r.vals["path"].v), lab < at(r.vals["upper"].v)) for r in td]) if td else z3.BoolVal(False)
 
         base = []
         for j in range(K):
